@@ -322,3 +322,63 @@ unsafe impl std::alloc::GlobalAlloc for PoisonOnFree {
         unsafe { std::alloc::System.realloc(ptr, layout, new_size) }
     }
 }
+
+// ------------------------------------------------------------------------------------------------
+// stateless wakers: every waker of this family has the SAME (null) data pointer - the same as
+// `Waker::noop()` - and differs from the others only by its vtable, like the wakers of minimal
+// `block_on` loops and embedded executors. Two of them are different wakers (`will_wake` is false)
+// although their data pointers are equal.
+
+static STATELESS_LEDGER: Mutex<Option<Arc<Ledger>>> = Mutex::new(None);
+
+/// The ledger the stateless wakers account to (one execution at a time per process).
+pub fn set_stateless_ledger(ledger: Option<Arc<Ledger>>) {
+    *STATELESS_LEDGER.lock().unwrap_or_else(|e| e.into_inner()) = ledger;
+}
+
+fn sl_ledger() -> Option<Arc<Ledger>> {
+    STATELESS_LEDGER.lock().unwrap_or_else(|e| e.into_inner()).clone()
+}
+
+fn sl_clone<const ID: usize>(_: *const ()) -> RawWaker {
+    if let Some(l) = sl_ledger() {
+        l.waker_clones.fetch_add(1, Ordering::Relaxed);
+    }
+    RawWaker::new(std::ptr::null(), &SL_VTABLES[ID])
+}
+
+fn sl_wake<const ID: usize>(_: *const ()) {
+    if let Some(l) = sl_ledger() {
+        l.waker_consumed.fetch_add(1, Ordering::Relaxed);
+        l.wakes[ID].fetch_add(1, Ordering::Relaxed);
+    }
+}
+
+fn sl_wake_by_ref<const ID: usize>(_: *const ()) {
+    if let Some(l) = sl_ledger() {
+        l.wakes[ID].fetch_add(1, Ordering::Relaxed);
+    }
+}
+
+fn sl_drop<const ID: usize>(_: *const ()) {
+    if let Some(l) = sl_ledger() {
+        l.waker_consumed.fetch_add(1, Ordering::Relaxed);
+    }
+}
+
+static SL_VTABLES: [RawWakerVTable; 4] = [
+    RawWakerVTable::new(sl_clone::<0>, sl_wake::<0>, sl_wake_by_ref::<0>, sl_drop::<0>),
+    RawWakerVTable::new(sl_clone::<1>, sl_wake::<1>, sl_wake_by_ref::<1>, sl_drop::<1>),
+    RawWakerVTable::new(sl_clone::<2>, sl_wake::<2>, sl_wake_by_ref::<2>, sl_drop::<2>),
+    RawWakerVTable::new(sl_clone::<3>, sl_wake::<3>, sl_wake_by_ref::<3>, sl_drop::<3>),
+];
+
+/// A waker of identity `id` (0..4) with a null data pointer. The handle returned counts as one
+/// clone that the harness consumes by dropping (or waking) it. Call `set_stateless_ledger` first.
+pub fn waker_stateless(id: usize) -> Waker {
+    if let Some(l) = sl_ledger() {
+        l.waker_clones.fetch_add(1, Ordering::Relaxed);
+    }
+    // SAFETY: the vtable functions uphold the RawWaker contract trivially (no data).
+    unsafe { Waker::from_raw(RawWaker::new(std::ptr::null(), &SL_VTABLES[id % 4])) }
+}
